@@ -513,6 +513,18 @@ func c02Load(tc *c02Case, allowExternal bool) *c02Loaded {
 	switch tc.Entry {
 	case "file_abs":
 		res.doc, res.err = loader.LoadFromFile(rootPath)
+	case "file_abs_reuse":
+		// first use of the Loader: the same root document where none of the other files exist
+		lone, err := os.MkdirTemp("", "verif-c02-lone-")
+		if err != nil {
+			panic(err)
+		}
+		defer os.RemoveAll(lone)
+		os.MkdirAll(filepath.Join(lone, "r"), 0o755)
+		os.WriteFile(filepath.Join(lone, "r", "openapi.json"), rootBytes, 0o644)
+		loader.LoadFromFile(filepath.Join(lone, "r", "openapi.json"))
+		res.reads = []any{}
+		res.doc, res.err = loader.LoadFromFile(rootPath)
 	case "file_rel", "file_rel_default":
 		wd, _ := os.Getwd()
 		os.Chdir(dir)
